@@ -2,7 +2,8 @@
 erase_artificials, compute_generator, second_phase, incremental re-solve (helper of checks/c06.py).
 
 proof:  PPLV.Props.C06Tab (tableau_setup_solutions, erase_artificials_valid, reoptimize_value_eq_fresh,
-        status_sound, pricing_choice_irrelevant, …) over the code-shaped model lean/PPLV/Solver/Pending.lean.
+        status_sound_partial, pricing_choice_irrelevant, lp_fresh_correct, …) and PPLV.Props.C06TabBB
+        (lp_fresh_implies_LPCorrect: the model discharges BB.LPCorrect for fresh nodes) over the code-shaped model lean/PPLV/Solver/Pending.lean.
 tie:    harness/c06_tab.cc (`#define private public`) builds seeded LP instances (1–4 variables, 0–7
         constraints, all classes of the parse_constraints table, tautologies, degenerate ties, dependent
         equalities, infeasible / unbounded), calls is_lp_satisfiable() / second_phase() and dumps the PRIVATE
@@ -22,7 +23,7 @@ import collections, hashlib, os, re, shutil, time
 from .common import VERIF, BUILD
 from . import poly_common as pc
 
-PROPS = ["PPLV.Props.C06Tab"]
+PROPS = ["PPLV.Props.C06Tab", "PPLV.Props.C06TabBB", "PPLV.Props.C06TabOracle", "PPLV.Props.C06TabIncr"]
 
 
 def _site(obl):
